@@ -72,6 +72,10 @@ pub fn run_mc(ctx: &mut Context, sys: &TransitionSystem, profile_idx: usize, eng
 /// coarse class of an error text for signatures
 pub fn error_class(msg: &str) -> String {
     let m = msg.to_lowercase();
+    // a crash of the reference solver itself is harness trouble, never a verdict on patronus
+    if m.contains("panicked at src/") || m.contains("refsolver internal") {
+        return "BACKEND".to_string();
+    }
     let table: [(&str, &str); 12] = [
         ("as const", "const-array-unsupported"),
         ("check-sat-assuming is not supported", "check-sat-assuming-unsupported"),
